@@ -19,6 +19,10 @@ on the wire outranks every wildcarded one), and may go to the controller only wh
           frames, looked up back to back in one table with no table change in between; differential against a fresh switch;
           packet-out [set_vlan_vid / set_vlan_pcp / strip_vlan ..., output:TABLE]: the lookup of the frame the datapath
           re-tagged itself must pick what the reference picks for the re-tagged BYTES (mc/refs/refmatch.retag)
+  part X  for every frame of the corpus, the near-collision variants and the boundary frames (mc/refs/refmatch.boundary_frames:
+          type/length 0x05dc / 0x0600 / 0x0601, vid 0xfff, ToS 0xff, IHL 6 / 15, DF, fragment offsets 1 / 0x1fff, ports 0 / 65535,
+          ARP opcode 255 / 256 ...): a match on each single field and the exact match, plus matches on the constants themselves,
+          each probed with ALL frames
   part O  packet OBJECTS assembled with the pox.lib.packet constructors (never parsed), own / no / new VLAN tag, handed to
           rx_packet: looked up like their packed bytes and like the reference says for those bytes
 """
@@ -853,8 +857,48 @@ def _work_o (item):
   return rep
 
 
+# ---------------------------------------------------------------------------------------------
+# single-field matches x all frames, boundary frames included (part X)
+# ---------------------------------------------------------------------------------------------
+def all_frames ():
+  return history_frames() + R.boundary_frames()
+
+
+def constant_matches ():
+  """Matches on the constants of the extraction rules, whatever frame they came from."""
+  out = [("dl_type", W.match_fields(dl_type=t)) for t in (0x05dc, R.OFP_DL_TYPE_NOT_ETH_TYPE, 0x0600, 0x0601, 0x8100)]
+  out += [("dl_vlan", W.match_fields(dl_vlan=v)) for v in (0, 1, 0xfff, R.OFP_VLAN_NONE)]
+  out += [("dl_vlan_pcp", W.match_fields(dl_vlan_pcp=v)) for v in (0, 7)]
+  for t in (0x0800, 0x0806):
+    out += [("nw_proto", W.match_fields(dl_type=t, nw_proto=v)) for v in (0, 1, 255)]
+    out += [(f, W.match_fields(**{"dl_type": t, f: (a, 32)})) for f in ("nw_src", "nw_dst") for a in (0, 0xffffffff)]
+  out += [("nw_tos", W.match_fields(dl_type=0x0800, nw_tos=v)) for v in (0, 0xfc)]
+  for pr in (1, 6, 17):
+    out += [(f, W.match_fields(dl_type=0x0800, nw_proto=pr, **{f: v})) for f in ("tp_src", "tp_dst") for v in (0, 255, 65535)]
+  return out
+
+
+def _work_x (item):
+  from mc.env import boot
+  boot()
+  _, names = item
+  frames = all_frames()
+  ck = Checker(Report(PID, "model_checking"), frames)
+  seen = set()
+  for base in frames:
+    if base.name not in names: continue
+    fields, app = ck.ext[base.name]
+    for f, mb in object_matches(fields, app):
+      if mb in seen: continue
+      seen.add(mb)
+      ck.check_match(mb, [base] + [x for x in frames if x is not base])
+  if "" in names:
+    for f, mb in constant_matches(): ck.check_match(mb, frames)
+  return _finish(ck)
+
+
 def _work (item):
-  return {"A": _work_a, "P": _work_p, "B": _work_b, "H": _work_h, "O": _work_o}[item[0]](item)
+  return {"A": _work_a, "P": _work_p, "B": _work_b, "H": _work_h, "O": _work_o, "X": _work_x}[item[0]](item)
 
 
 # ---------------------------------------------------------------------------------------------
@@ -884,6 +928,8 @@ def run (cfg):
     items += [("H", ht[i:i+step], thorough) for i in range(0, len(ht), step)]
   if cfg.only in (None, "O"):
     items += [("O", (f.name,)) for f in history_frames() if R.layout(f.data) is not None and R.layout(f.data).get("ihl", 20) == 20]
+  if cfg.only in (None, "X"):
+    items += [("X", (f.name,)) for f in all_frames()] + [("X", ("",))]
   ncp = cfg.pick(2, 4)
   if thorough:
     a_rule = ("counters {0,32}^2 x {V0: the frame's own values, fields the frame lacks carrying non-zero garbage; V0 with wildcarded fields "
@@ -913,7 +959,9 @@ def run (cfg):
     "every Ethernet II frame x %d action lists (set_vlan_vid 5/0x123/0, set_vlan_pcp 2/7, vid+pcp, pcp+vid, strip_vlan, strip+vid): the "
     "lookup must pick an entry the reference allows for the re-tagged bytes.  O: every Ethernet II corpus/variant frame without IP options "
     "assembled from pox.lib.packet constructors with tag in %s, handed to rx_packet as an object and as its packed bytes, against a match "
-    "on each single field (frame's value / differing value, prerequisites specified) and the exact match.  distinct = (frame, participating field set, observation) for A/P, "
+    "on each single field (frame's value / differing value, prerequisites specified) and the exact match.  X: the same single-field and "
+    "exact matches for each of %d frames (corpus, variants and %d boundary frames: %s) plus %d matches on the constants of the extraction "
+    "rules, each probed with all %d frames.  distinct = (frame, participating field set, observation) for A/P, "
     "(frame, allowed entries, entry that forwarded) for B, (previous frame, frame, observation) and (frame, actions, allowed, observed) for H, "
     "(frame, tag, field, observation of object, of bytes) for O"
     % (len(frames), ", ".join(f.name for f in frames), a_rule, p_rule, len(COUNTERS) ** 2, list(COUNTERS),
@@ -921,7 +969,8 @@ def run (cfg):
        ", ".join(m for m, _ in lookup_alphabet()), list(PRIORITIES), OUT, len(frames),
        cfg.pick(2, 3), len(history_tables(thorough)), len(history_frames()), ", ".join(f.name for f in R.near_collisions()),
        "; for tables of <=2 entries also a de Bruijn history containing every ordered triple of frames" if thorough else "",
-       len(VLAN_ACTIONS), list(TAGS)))
+       len(VLAN_ACTIONS), list(TAGS), len(all_frames()), len(R.boundary_frames()), ", ".join(f.name for f in R.boundary_frames()),
+       len(constant_matches()), len(all_frames())))
   rep.bound = dict(wildcard_bit_words=1024, counter_pairs_A=ncp, counter_pairs_P=len(COUNTERS) ** 2, deviations=cfg.pick(1, 2),
                    frames=len(frames), table_entries=depth, lookup_alphabet=len(kinds),
                    history_tables=len(history_tables(thorough)), history_frames=len(history_frames()), history_adjacent=cfg.pick(2, 3))
@@ -967,7 +1016,7 @@ def replay (cfg, data):
     for k, v in sorted(rep.violations.items()):
       lines.append("%s: %s" % (k, v["what"]))
     return bool(rep.violations), "\n".join(lines)
-  frames = dict((f.name, f) for f in history_frames())
+  frames = dict((f.name, f) for f in all_frames())
   fr = frames[data["frame"]]
   if data["kind"] == "object":
     tag = data["tag"] if isinstance(data["tag"], str) else tuple(data["tag"])
@@ -991,7 +1040,7 @@ def replay (cfg, data):
            "  fields per specification: " + ", ".join("%s=%s" % (f, fields[f].hex() if isinstance(fields[f], bytes) else hex(fields[f]))
                                                      for f in FIELDS if f in app)]
   if data["kind"] == "match":
-    ck = Checker(rep, history_frames())
+    ck = Checker(rep, all_frames())
     mb = bytes.fromhex(data["match"])
     pm = W.parse_match(mb); m = ref_match(pm)
     lines.append("match on the wire: wildcards=%#x %s" % (pm["wildcards"], ", ".join(
